@@ -19,6 +19,22 @@ def _identity_decorator(*args, **kwargs):
     return deco
 
 
+REPO = os.environ.get("SVX_REPO", "/repo").rstrip("/")
+
+
+def _use_repo():
+    """checks run against /repo's working tree; SVX_REPO points them at a scratch copy instead
+    (only used when evaluating seeded changes without touching /repo)."""
+    if REPO != "/repo":
+        sys.path.insert(0, REPO)
+
+
+def _assert_repo():
+    import sopht
+
+    assert os.path.realpath(sopht.__file__).startswith(os.path.realpath(REPO) + "/"), (sopht.__file__, REPO)
+
+
 def boot_symbolic():
     if "sopht" in sys.modules or "elastica" in sys.modules:
         raise RuntimeError("svx.boot must run before sopht/elastica are imported")
@@ -30,9 +46,11 @@ def boot_symbolic():
     from . import kernel
 
     kernel.install()
+    from . import symnp  # noqa: F401  (installs arithmetic on symbolic views)
+    _use_repo()
     import sopht  # noqa: F401  (from /repo's working tree: editable install)
 
-    assert os.path.realpath(sopht.__file__).startswith("/repo/"), sopht.__file__
+    _assert_repo()
 
 
 def boot_native():
@@ -66,4 +84,7 @@ def boot_native():
                     return npinterp.NumpyKernel(self.asg, self.config)
 
         ps.create_kernel = lambda asg, config=None: _Lazy(asg, config)
+    _use_repo()
     import sopht  # noqa: F401
+
+    _assert_repo()
